@@ -478,3 +478,5 @@ pub fn run(ctx: &Ctx) -> (Acc, String, bool) {
     );
     (acc, rule, false)
 }
+
+pub const ASSUMPTIONS: &[&str] = &["reference: structural equality on V with list/concatenation flattening exactly as both stores' concatenation iterators splice (lists directly under a concatenation are spliced, nested lists are items)", "NaN excluded (reflexivity is not demanded of NaN)", "symbol lists hold symbols only (SimpleGarnishData cannot store numeric parts)"];
